@@ -20,10 +20,6 @@ Lemma C08_L1_refines_L0_proof :
     run1 init1 ops = run0 init0 ops /\ Sim (exec1 init1 ops) (exec0 init0 ops).
 Proof. intros ops. exact (run_refines ops init1 init0 sim_init). Qed.
 
-Lemma C08_revert_checkpoint_proof :
-  forall ops : list op, run1 init1 ops = run0 init0 ops.
-Proof. intros ops. exact (proj1 (C08_L1_refines_L0_proof ops)). Qed.
-
 Lemma C08_snapshot_ignores_staged_proof :
   forall s o, (0 < depth0 s)%nat -> (0 < depth0 (fst (step0 s o)))%nat ->
     base0 (fst (step0 s o)) = base0 s /\
